@@ -823,7 +823,7 @@ class Engine:
 
     def _loop_iter(self, s, st, it, lid, spec):
         items = self._concrete_items(it)
-        if items is not None and spec is None:
+        if items is not None:               # a concrete (short) iterable is unrolled even when the same statement has an invariant for its symbolic variant
             if s.orelse:
                 raise Unsupported("for/else")
             outs, live = [], [(st, "fall")]
@@ -848,8 +848,6 @@ class Engine:
                 ispec = IterSpec(it.n, it.get)
             elif isinstance(it, Abstract) and it.tag == "range":
                 ispec = IterSpec(If(it.hi > it.lo, it.hi - it.lo, 0), lambda i, it=it: it.lo + i)
-            elif items is not None:
-                raise Unsupported("invariant given for a concrete loop")
             else:
                 raise Unsupported(f"iteration over {it!r}")
         return self._loop_cut(s, st, lid, spec, ispec)
